@@ -594,6 +594,9 @@ func genC13(t *rapid.T) c13Case {
 	case "1E8hdr":
 		maxFiles = 2
 	}
+	if v := envInt("VERIF_MAXFILES", 0); v > 0 && v < maxFiles {
+		maxFiles = v
+	}
 	nf := rapid.IntRange(max(1, min(envInt("VERIF_MINFILES", 1), maxFiles)), maxFiles).Draw(t, "files")
 	dirs := []string{"", "", "a", "a/b", "a/b/c", "x"}
 	seen := map[string]bool{}
